@@ -409,13 +409,22 @@ PROPS = {
               dict(driver="sched", gen="tlc", args=[], quick=150, thorough=4000, final_rc3=True)]),
     "C09": dict(
         design=[(CONC, ["MC_RainConc_small.cfg"], ["MC_RainConc_small.cfg"]),
-                ("MC_RainManual.tla", ["MC_RainManual.cfg"], ["MC_RainManual.cfg", "MC_RainManual_big.cfg"])],
+                ("MC_RainManual.tla", ["MC_RainManual.cfg"], ["MC_RainManual.cfg", "MC_RainManual_big.cfg"]),
+                ("MC_RainRoom.tla", ["MC_RainRoom.cfg"], ["MC_RainRoom.cfg", "MC_RainRoom_big.cfg"])],
         switches=[("Bug_NoNotify", CONC, "MC_RainConc_small.cfg", "AllWritersReturn"),
                   ("Bug_HoldRequestAcrossMerge", "MC_RainManual.tla", "MC_RainManual.cfg", "Deadlock"),
                   ("Bug_NotifyOne", "MC_RainManual.tla", "MC_RainManual.cfg", "NoLostWaiter"),
-                  ("Bug_NoRescheduleAtEnd", "MC_RainManual.tla", "MC_RainManual.cfg", "NoLostWaiter")],
+                  ("Bug_NoRescheduleAtEnd", "MC_RainManual.tla", "MC_RainManual.cfg", "NoLostWaiter"),
+                  ("Bug_NoRescheduleForLevel0", "MC_RainRoom.tla", "MC_RainRoom.cfg", "WorkIsScheduled"),
+                  ("Bug_FlushDoesNotWake", "MC_RainRoom.tla", "MC_RainRoom.cfg", "NoLostWaiter"),
+                  ("Bug_RotateDoesNotSchedule", "MC_RainRoom.tla", "MC_RainRoom.cfg", "WorkIsScheduled"),
+                  ("Bug_StopBelowTrigger", "MC_RainRoom.tla", "MC_RainRoom.cfg", "NoLostWaiter")],
         work=[dict(driver="live", args=["--ops", "150"], quick=16, thorough=400, trace=CONC_TRACE,
                    final_rc3=True),
+              # slow worker: flushes pile level-0 files up during long compactions until writers
+              # hit the slowdown and stop thresholds (RainRoom)
+              dict(driver="live", args=["--ops", "300", "--jitter", "500"], quick=8, thorough=200,
+                   trace=CONC_TRACE, final_rc3=True),
               dict(driver="sched", args=["--all"], quick=1, thorough=6, trace=CONC_TRACE,
                    final_rc3=True),
               # spec -> impl: behaviours of RainManual / RainConc generated by TLC and replayed
@@ -557,6 +566,10 @@ def check_prop(prop, tier, seed):
             for x in r:
                 for kk, vv in x["corrupt"]["by_kind"].items():
                     extra["corruption_probes_" + kk] = extra.get("corruption_probes_" + kk, 0) + vv
+        if w["driver"] == "live":
+            for x in r:
+                for kk, vv in (x.get("waits") or {}).items():
+                    extra["condvar_waits_" + kk] = extra.get("condvar_waits_" + kk, 0) + vv
         if w["driver"] == "sched":
             extra["forced_schedules"] = extra.get("forced_schedules", 0) + len(r)
             extra["schedules_where_victim_parked"] = extra.get("schedules_where_victim_parked", 0) + sum(1 for x in r if x.get("parked"))
@@ -734,7 +747,7 @@ def replay(path):
                 rp["scenario"], "--out", outdir], timeout=900)
     elif rp["driver"] == "live":
         r = sh([BIN, "live", "--seed", str(rp["seed"]), "--runs", "1", "--ops", str(rp.get("ops", 150)),
-                "--out", outdir], timeout=900)
+                "--jitter", str(rp.get("jitter", 0)), "--out", outdir], timeout=900)
     else:
         r = sh([BIN, rp["driver"], "--replay", path, "--out", outdir], timeout=900)
     log(r.stdout[-2000:])
